@@ -480,3 +480,53 @@ PROPS["C17"] = {
         "alphabet (5.7 M words), sequences of length 6 and strings of length 7."),
     "vacuity": need(["words", "words128"]),
 }
+
+
+def c18_post(pid, tier, results):
+    """type level: the autotraits binary (Send + Sync assertions for every public type) must compile"""
+    import os, subprocess
+    mc = os.path.join(os.path.dirname(os.path.dirname(os.path.abspath(__file__))), "mc")
+    scratch = os.environ.get("QWT_SCRATCH")
+    cmd = ["cargo", "build", "--profile", "chk", "--bin", "autotraits", "--target-dir", os.path.join(scratch or mc, "target")]
+    if os.environ.get("QWT_REPO"):
+        cmd += ["--config", 'paths=["%s"]' % os.environ["QWT_REPO"]]
+    p = subprocess.run(cmd, cwd=mc, env=dict(os.environ, CARGO_NET_OFFLINE="true", CARGO_TERM_COLOR="never"),
+                       stdout=subprocess.PIPE, stderr=subprocess.STDOUT, text=True)
+    if p.returncode == 0:
+        results[0].setdefault("counters", {})["send_sync_assertions_compiled"] = 1
+        return [], []
+    err = [l for l in p.stdout.splitlines() if "error" in l or "Send" in l or "Sync" in l]
+    text = " | ".join(err)[:600]
+    if "Send" in p.stdout or "Sync" in p.stdout or "cannot be shared between threads" in p.stdout or "cannot be sent between threads" in p.stdout:
+        return [{"property": pid, "ty": "public types", "method": "Send + Sync", "class": "autotraits", "query": "fn send_sync<T: Send + Sync>() for every public type",
+                 "expected": "compiles", "observed": "ABORT: " + text, "case_index": 0, "case": {"bin": "autotraits"}, "profile": "chk", "no_replay": True}], []
+    return [], ["C18: autotraits does not build for a reason unrelated to Send/Sync: " + text]
+
+
+PROPS["C18"] = {
+    "bin": "mc_conc",
+    "quick": [step("mc_conc", CHK)],
+    "thorough": [step("mc_conc", CHK), step("mc_conc", FAST)],
+    "post": c18_post,
+    "evidence": mc_evidence(
+        "(1) type level: a binary asserting Send + Sync for every public type and borrowing iterator must compile. "
+        "(2) explicit-state exploration of sequential query histories: each subject (46 quick / 66 thorough: all ten tree "
+        "aliases over 2-4 inputs of 5000-9000 symbols, RSQVector256/512, RSNarrow, RSWide, DArray<false/true>, BitVector over "
+        "40000-70000 bits incl. dense/sparse group mixes) is built inside an arena allocator; the query alphabet (up to 90 "
+        "queries, derived from the reference model: get / rank / rank_prefetch / select / rank1 / select0 / occs / iterators "
+        "with arguments around every block, superblock and sample boundary, the last occurrence before and the first after "
+        "each boundary, consecutive indices, invalid and usize::MAX arguments) is explored to depth 2 (thorough 3): after every "
+        "step the answer must equal the answer of the same query on a second instance that never saw another query, and the "
+        "state (bincode bytes, digest of every byte the structure allocated) is recorded - the reachable state graph must be "
+        "one state with |A| self-loops (a changed digest alone is reported in the counters, not as a violation: only answers "
+        "and the serialized form decide). (3) schedules: shuttle::check_dfs over 2 threads x 3 queries and 3 threads x 2 "
+        "queries (colliding arguments) on the shared structure, every interleaving at query granularity, each thread must "
+        "obtain the sequential answers. (4) the same alphabets on 8 free-running OS threads (sampling pass). states = distinct "
+        "(bytes, arena digest) states + schedules; transitions = queries executed.",
+        TRUST + ["shuttle 0.9.3 (cooperative DFS scheduler: preemption only at the yield between queries)",
+                 "intra-query preemption is covered by the independence argument: when the arena digest never changes no query "
+                 "writes shared memory, so read-only steps commute"],
+        "depth 2 over <= 90 queries (thorough: depth 3 over 40), 2x3 and 3x2 thread harnesses; state kept in statics behind "
+        "atomics is visible only through answers."),
+    "vacuity": lambda results: None if _merge_counters(results)[0].get("schedules", 0) > 1000 and _merge_counters(results)[0].get("subjects_with_one_reachable_state", 0) > 10 else "too few schedules or subjects",
+}
